@@ -23,6 +23,7 @@ type Profile struct {
 	Standby                bool // additional (standby) connections and loss of the master only
 	FaultInSync            bool // connection loss / device restart armed for the moment of a re-synchronisation
 	Pace                   bool // under a drawn schedule some actions wait until everything earlier has settled
+	HardFaults             bool // injected bursts may hold non-transient codes (the outcome of a change that meets one is not predicted)
 	Crashes                int  // max crashes
 	Rollbacks              bool
 	Sync                   bool // some Sets are synchronous
@@ -124,7 +125,7 @@ func genScenario(rt *rapid.T, p Profile) Scenario {
 					c := []int{14, 13, 4, 3, 1, 2}[rapid.IntRange(0, 5).Draw(rt, "fiscode")]
 					// a device that silently executed a request (lost answer) and then REFUSES its repetition leaves
 					// nobody able to tell what it holds: hard refusals are not injected on such a target
-					if hasLost[t] && (c == 13 || c == 3 || c == 2) {
+					if (hasLost[t] || !p.HardFaults) && (c == 13 || c == 3 || c == 2) {
 						c = 14
 					}
 					if c == 13 || c == 3 || c == 2 {
